@@ -917,8 +917,15 @@ func genPadRecipe(r *rand.Rand, k int, pool []*chainInfo) *scenario {
 // of the same (chain id, height, round) - the kind honest validators broadcast in a failed round; nothing
 // in a nil vote binds it to a block.  For-block power is at most 2/3 of the set; for-block plus for-nil
 // power exceeds 2/3.  someAbsent leaves a few of the non-coalition slots absent (keeping for+nil > 2/3).
-func buildNilPadded(r *rand.Rand, ci *chainInfo, t0, th int64, coalition map[string]bool, class string, round int32, someAbsent bool) *fork {
+//
+// invented = true: the header's OWN validator set is adversary-made instead (one heavy never-bonded key in
+// slot 0 gives it > 2/3 of that set); the coalition's for-block signature and the honest validators' nil
+// precommits sit in the other slots, where only the trust-level tally over the TRUSTED set looks at them.
+func buildNilPadded(r *rand.Rand, ci *chainInfo, t0, th int64, coalition map[string]bool, class string, round int32, someAbsent, invented bool) *fork {
 	f := &fork{blocks: map[int64]*types.LightBlock{}, plan: map[int64]func() *types.LightBlock{}, hdrs: map[int64]*types.Header{}}
+	if invented {
+		return buildNilPaddedInvented(r, ci, f, t0, th, coalition, class, round)
+	}
 	canon := ci.lbs[th]
 	vals := ci.sets[th]
 	hdr := *canon.Header
@@ -962,6 +969,61 @@ func buildNilPadded(r *rand.Rand, ci *chainInfo, t0, th int64, coalition map[str
 	return f
 }
 
+func buildNilPaddedInvented(r *rand.Rand, ci *chainInfo, f *fork, t0, th int64, coalition map[string]bool, class string, round int32) *fork {
+	chainID := ci.ch.ChainID
+	trusted := ci.sets[t0]
+	hdr := *ci.lbs[th].Header
+	hdr.AppHash = randHash(r)
+	// honest signers of nil: validators of the trusted set outside the coalition (preferring those still bonded at th)
+	atTh := map[string]bool{}
+	for _, v := range ci.sets[th].Validators {
+		atTh[string(v.Address)] = true
+	}
+	var honest []*types.Validator
+	for pass := 0; pass < 2; pass++ {
+		for _, v := range trusted.Validators {
+			if !coalition[string(v.Address)] && atTh[string(v.Address)] == (pass == 0) {
+				honest = append(honest, v)
+			}
+		}
+	}
+	var kvals []*types.Validator
+	for _, v := range trusted.Validators {
+		if coalition[string(v.Address)] {
+			kvals = append(kvals, v)
+		}
+	}
+	size := 1 + len(kvals) + len(honest)
+	hk := chaingen.Key(int64(ci.idx)*15485863+th, 800000)
+	vs := []*types.Validator{types.NewValidator(hk.PubKey(), 1000000)}
+	for j := 1; j < size; j++ {
+		vs = append(vs, types.NewValidator(chaingen.Key(int64(ci.idx)*15485863+th, 800000+j).PubKey(), 1))
+	}
+	vals := types.NewValidatorSet(vs)
+	vals.TotalVotingPower()
+	hdr.ValidatorsHash, hdr.NextValidatorsHash = vals.Hash(), vals.Hash()
+	bid := types.BlockID{Hash: hdr.Hash(), PartSetHeader: types.PartSetHeader{Total: 1, Hash: randHash(r)}}
+	base := hdr.Time.Add(500 * time.Millisecond)
+	sigs := make([]types.CommitSig, 0, size)
+	sigs = append(sigs, padSig(chainID, types.NewMockPVWithParams(hk, false, false), vals.Validators[0].Address, th, round, bid, base))
+	var rest []types.CommitSig
+	for i, v := range kvals {
+		rest = append(rest, padSig(chainID, ci.ch.Keys[string(v.Address)], v.Address, th, round, bid, base.Add(time.Duration(i+1)*time.Millisecond)))
+	}
+	for i, v := range honest { // genuine precommits for nil: empty block id
+		rest = append(rest, padSig(chainID, ci.ch.Keys[string(v.Address)], v.Address, th, round, types.BlockID{}, base.Add(time.Duration(100+i)*time.Millisecond)))
+	}
+	r.Shuffle(len(rest), func(i, j int) { rest[i], rest[j] = rest[j], rest[i] })
+	sigs = append(sigs, rest...)
+	hc := hdr
+	f.blocks[th] = &types.LightBlock{SignedHeader: &types.SignedHeader{Header: &hc, Commit: types.NewCommit(th, round, bid, sigs)}, ValidatorSet: vals}
+	f.hdrs[th] = &hc
+	cp0, t00 := powerOf(trusted, coalition)
+	f.desc = forkDesc{Kind: fmt.Sprintf("commit padded with genuine nil precommits, own validator set adversary-made (round %d, %d nil slots of trusted validators; for-block power %s/%s of the trusted set)",
+		round, len(honest), cp0, t00), From: th, To: th, Class: class, Coalition: len(coalition), PhiFrom: cp0.String() + "/" + t00.String(), Heights: []int64{th}}
+	return f
+}
+
 // genNilRecipe: recipe family "nil-padded commit" (see buildNilPadded); deliveries as in genPadRecipe:
 //
 //	0 primary + colluding witness, non-adjacent target, skipping mode (direct jump and, when that cannot
@@ -1002,7 +1064,12 @@ func genNilRecipe(r *rand.Rand, k int, pool []*chainInfo) *scenario {
 	d.DriftMs = 5
 	sc.par = params{chainID: ci.ch.ChainID, period: period, drift: drift, num: tl[0], den: tl[1]}
 	d.DeltaUs = 300
+	invented := delivery != 1 && (k/4)%2 == 1
 	own := ci.sets[target]
+	if invented { // the coalition is one validator holding less than 1/3 of the TRUSTED set
+		class = "one validator below 1/3"
+		own = ci.sets[d.Root]
+	}
 	if class == "between 1/3 and 2/3" {
 		sc.coalition = pickCoalition(r, ci, "mid", target, target)
 	} else {
@@ -1019,7 +1086,7 @@ func genNilRecipe(r *rand.Rand, k int, pool []*chainInfo) *scenario {
 			sc.coalition[string(K.Address)] = true
 		}
 	}
-	f := buildNilPadded(r, ci, d.Root, target, sc.coalition, class, round, someAbsent)
+	f := buildNilPadded(r, ci, d.Root, target, sc.coalition, class, round, someAbsent, invented)
 	sc.forks = append(sc.forks, f)
 	d.Recipe = fmt.Sprintf("nil-padded commit, delivery %d: %s", delivery, f.desc.Kind)
 	now := ci.time(n).Add(2 * time.Second)
